@@ -1,7 +1,7 @@
 (* PropC08.v — C08: damaged WAL bytes never surface as records that were not appended. Proved: (a) for ANY directory content, whatever open returns has strictly increasing positions per queue (representation invariant); (b) whatever decodes as an entry is exactly the serialization of that entry (nothing invented by the codec); (c) CRC-detected damage of any set of frames delivers a subsequence of the written entries. (d) ARBITRARY damage inside one block, frame headers (length, type byte) included: under the hypothesis NoEmbeddedPath (the only CRC-valid frames on the reader's path through the damaged block are genuine, untouched frames: what a CRC promises up to collisions) the delivered entries are a sub-list of the written ones. The general statement is false without that hypothesis (known finding F4: NoEmbedded_necessary).
    Statements only; each theorem is closed by `exact <lemma>`; proofs live in the imported files. *)
 From Coq Require Import Lia NArith List.
-From MRL Require Import Bytes Params Names Frame Record Mem Spec Rolling Log Driver SpecRefine RecordProofs StreamProofs DamageProofs OpenReplay DamageFile HeaderDamageEv HeaderDamage HeaderDamageEx.
+From MRL Require Import Bytes Params Names Frame Record Mem Spec Rolling Log Driver SpecRefine RecordProofs StreamProofs DamageProofs OpenReplay DamageFile HeaderDamageEv HeaderDamage HeaderDamageEx HeaderDamageFile HeaderDamageFileEx.
 
 (* any directory content: the returned queues satisfy the invariant (positions strictly increasing, payload offsets consistent) *)
 Theorem C08_positions_increasing_any_directory :
@@ -163,9 +163,9 @@ Print Assumptions C08_header_damage_resync.
 (* the hypothesis is necessary: a payload embedding a CRC-valid frame image + one overwritten length byte makes the reader deliver an entry that was never written (finding F4, at stream level, real CRC-32) *)
 Theorem C08_NoEmbedded_necessary :
     encs_rel DamageAtomic.Example.Pc 0 A.es A.t /\
-    damaged_in_block DamageAtomic.Example.Pc A.D A.t 0 /\
-    ~ sublist (delivered (mem_read_stream DamageAtomic.Example.Pc A.D)) A.es /\
-    ~ NoEmbeddedPath DamageAtomic.Example.Pc A.D 0 A.t.
+    damaged_in_block DamageAtomic.Example.Pc HeaderDamageEx.A.D A.t 0 /\
+    ~ sublist (delivered (mem_read_stream DamageAtomic.Example.Pc HeaderDamageEx.A.D)) A.es /\
+    ~ NoEmbeddedPath DamageAtomic.Example.Pc HeaderDamageEx.A.D 0 A.t.
 Proof. exact A.NoEmbedded_necessary. Qed.
 Print Assumptions C08_NoEmbedded_necessary.
 
@@ -179,4 +179,132 @@ Theorem C08_header_damage_later_entries_can_be_lost :
     ~ In e3 (delivered (mem_read_stream DamageAtomic.Example.Pc C.D)).
 Proof. exact C.later_entries_can_be_lost. Qed.
 Print Assumptions C08_header_damage_later_entries_can_be_lost.
+
+(* THROUGH open OVER FILES: a directory whose kept files hold the written stream with arbitrary bytes in one block (headers included, NoEmbeddedPath): open replays a sub-list of the entries a clean open would replay (all entries before the block; those after it unless the reader met a zero header inside it), or fails with Corruption when the replay of that sub-list fails - never anything else *)
+Theorem C08_open_header_damaged :
+    forall P : params,
+    7 < BS P ->
+    BS P <= 65542 ->
+    1 <= NB P ->
+    (forall (t : byte) (p : bytes), crcf P t p < 2 ^ 32) ->
+    forall (fs : fsT) (lo : N) (n : nat),
+    (forall f : N,
+    In f (GcProofs.iota lo (S n)) ->
+    exists b : bytes, fs_get fs (filename f) = Some (FFile b) /\ lenN b = FILE_BYTES P) ->
+    forall (base : N) (E_pre E_1 E_b E_3 : list entry) (t0 t1 tb t3 : bytes) (z : N)
+    (D : list byte) (blk : N) (pol : policy) (hint : list bytes),
+    L_IO P = false ->
+    base <= lo ->
+    list_wal_numbers fs = GcProofs.iota lo (S n) ->
+    Forall wf_entry (E_1 ++ E_b ++ E_3) ->
+    encs_rel P 0 (map entry_ser E_pre) t0 ->
+    encs_rel P (lenN t0) (map entry_ser E_1) t1 ->
+    encs_rel P (lenN t0 + lenN t1) (map entry_ser E_b) tb ->
+    encs_rel P (lenN t0 + lenN t1 + lenN tb) (map entry_ser E_3) t3 ->
+    let T := t0 ++ t1 ++ tb ++ t3 in
+    let b := (lo - base) * FILE_BYTES P in
+    lenN (T ++ zerosN z) = (lo + N.of_nat n - base + 1) * FILE_BYTES P ->
+    lenN D = lenN (T ++ zerosN z) ->
+    takeN (blk * BS P) D = takeN (blk * BS P) (T ++ zerosN z) ->
+    dropN ((blk + 1) * BS P) D = dropN ((blk + 1) * BS P) (T ++ zerosN z) ->
+    (blk + 1) * BS P <= lenN D ->
+    (lo - base) * NB P <= blk ->
+    FileStream.stream_of fs (GcProofs.iota lo (S n)) = dropN b D ->
+    Forall (fun s : N * N => snd s < b) (ResyncProofs.starts P 0 (map entry_ser E_pre)) ->
+    b <= ResyncProofs.first_frame_pos P (lenN t0) ->
+    E_1 = [] \/ lenN t0 + lenN t1 <= blk * BS P ->
+    E_3 = [] \/ (blk + 1) * BS P <= ResyncProofs.first_frame_pos P (lenN t0 + lenN t1 + lenN tb) ->
+    NoEmbeddedPath P D blk T ->
+    exists (w0 : rwriter) (tags : list N) (E_mid E_tail : list entry),
+    sublist E_mid E_b /\
+    (E_tail = E_3 /\
+    ((blk + 1) * BS P <= lenN T ->
+    exists sts : list (N * N), dmg_spec P fs lo n base w0 tags sts (lenN T)) \/
+    E_tail = [] /\ stopped_in P D blk) /\
+    hd_spec fs lo n w0 tags (length (E_1 ++ E_mid ++ E_tail)) /\
+    match GhostLog.replay_entries [] (combine tags (E_1 ++ E_mid ++ E_tail)) with
+    | Some qs => open P fs None pol hint = open_finish P w0 qs pol hint
+    | None => exists c : ioctx, open P fs None pol hint = OpenCorruption c
+    end.
+Proof. exact open_header_damaged. Qed.
+Print Assumptions C08_open_header_damaged.
+
+(* END TO END from the global invariant: after such damage open either fails with Corruption or returns queues every record of which was appended (it belongs to an AppendRecords entry of the ghost log that was delivered) *)
+Theorem C08_header_damage :
+    forall P : params,
+    7 < BS P ->
+    BS P <= 65542 ->
+    1 <= NB P ->
+    (forall (t : byte) (p : bytes), crcf P t p < 2 ^ 32) ->
+    L_IO P = false ->
+    forall (st : state) (G : RestartInv.ghost) (blk : N) (D : bytes) (fs_d : fsT),
+    RestartInv.Inv P st G ->
+    header_damaged_dir P st G blk D fs_d ->
+    forall (pol : policy) (hint : list bytes),
+    exists (w0 : rwriter) (tags : list N) (Es' : list entry),
+    sublist Es' (map snd (RestartInv.gh_E G)) /\
+    length tags = length Es' /\
+    match GhostLog.replay_entries [] (combine tags Es') with
+    | Some qD =>
+    open P fs_d None pol hint = open_finish P w0 qD pol hint /\
+    (forall st_r : state, open P fs_d None pol hint = OpenOk st_r -> s_qs st_r = qD) /\
+    (forall (q : bytes) (m : mq) (rec : N * bytes),
+    qs_get qD q = Some m ->
+    In rec (records_of (q_buf m) (q_metas m)) ->
+    exists (pos : N) (recs : list (N * bytes)), In (EAppend q pos recs) Es' /\ In rec recs)
+    | None => exists c : ioctx, open P fs_d None pol hint = OpenCorruption c
+    end.
+Proof. exact C08_header_damage. Qed.
+Print Assumptions C08_header_damage.
+
+(* and when the reader gets through the damaged block, open succeeds (or fails with Corruption only through the replay of the sub-log) *)
+Theorem C08_header_damage_ok :
+    forall P : params,
+    7 < BS P ->
+    BS P <= 65542 ->
+    1 <= NB P ->
+    (forall (t : byte) (p : bytes), crcf P t p < 2 ^ 32) ->
+    L_IO P = false ->
+    L_GC P = false ->
+    forall (st : state) (G : RestartInv.ghost) (blk : N) (D : bytes) (fs_d : fsT),
+    RestartInv.Inv P st G ->
+    header_damaged_dir P st G blk D fs_d ->
+    DamageAtomic.dmg_bound P st G ->
+    (blk + 1) * BS P <= lenN (RestartInv.gh_T P G) ->
+    ~ stopped_in P D blk ->
+    forall (pol : policy) (hint : list bytes),
+    exists (tags : list N) (Es' : list entry),
+    sublist Es' (map snd (RestartInv.gh_E G)) /\
+    length tags = length Es' /\
+    match GhostLog.replay_entries [] (combine tags Es') with
+    | Some qD => exists st_r : state, open P fs_d None pol hint = OpenOk st_r /\ s_qs st_r = qD
+    | None => exists c : ioctx, open P fs_d None pol hint = OpenCorruption c
+    end.
+Proof. exact C08_header_damage_ok. Qed.
+Print Assumptions C08_header_damage_ok.
+
+(* such directories exist for every state and every kept block (one type byte set to 0xFF): the premises are satisfiable for any checksum function *)
+Theorem C08_header_damaged_dir_exists :
+    forall P : params,
+    7 < BS P ->
+    BS P <= 65542 ->
+    1 <= NB P ->
+    (forall (t : byte) (p : bytes), crcf P t p < 2 ^ 32) ->
+    forall (st : state) (G : RestartInv.ghost) (blk : N),
+    RestartInv.Inv P st G ->
+    (FileStream.wlo (s_wr st) - RestartInv.gh_base G) * NB P <= blk ->
+    blk < (FileStream.wlo (s_wr st) - RestartInv.gh_base G + lenN (w_files (s_wr st))) * NB P ->
+    exists (D : bytes) (fs_d : fsT),
+    header_damaged_dir P st G blk D fs_d /\ ((blk + 2) * BS P <= lenN D -> ~ stopped_in P D blk).
+Proof. exact header_damaged_dir_exists. Qed.
+Print Assumptions C08_header_damaged_dir_exists.
+
+(* sharpness: with ONE damaged length byte the replay of the delivered sub-log can fail (a lost DeleteQueue + lost re-creation make a later append 'Past'): open then reports Corruption - damage is reported, not turned into data *)
+Theorem C08_one_byte_can_fail_open :
+    B.verdict (open DamageAtomic.Example.Pc B.fs2 None PNothing []) = 0 /\
+    B.verdict (open DamageAtomic.Example.Pc B.fs2d None PNothing []) = 2 /\
+    GhostLog.replay_entries [] (combine [0; 0; 1; 1; 3] (firstn 4 B.E_all ++ skipn 6 B.E_all)) = None /\
+    sublist (firstn 4 B.E_all ++ skipn 6 B.E_all) B.E_all.
+Proof. exact B.one_byte_corruption. Qed.
+Print Assumptions C08_one_byte_can_fail_open.
 
